@@ -139,7 +139,7 @@ def run(ctx):
     ]
     ctx.assumptions += [
         "lgam is uninterpreted in Coq: each correspondence goal assumes G - e <= lgam a <= G + e with G the value gammaln returned at a",
-        "normalisation of the k-NN Poisson model for k > 1 is not proved (needs Gamma(k) as an integral); k = 1 is proved; general k is tested by quadrature in log-volume coordinates (support only)",
+        "normalisation of the k-NN Poisson model is proved for every neighbour count (C03_knn_poisson_density_normalised) under lgam(k+1) = ln k! at the integer count; the quadrature in log-volume coordinates remains as support",
         "'the starting point is the ridge-regression solution' is the Ridge contract (validated numerically) applied to the proved target mle - mu; uniqueness of the minimiser is world-B algebra, not proved here",
         "ls_factor is applied by the estimator (base_model._compute_ls), outside the translated functions: tied by the estimator-level comparison only",
     ]
